@@ -27,6 +27,9 @@ def cubes(tier):
         out += _split(dict(link="copy", delete=True, form="lazy", deep=True), [(0, 2), (2, 2)])
         out += _split(dict(link="copy", delete=True, form="explicit", oldhash=False), [(2, 1), (1, 2)])
         out += _split(dict(link="copy", delete=True, form="explicit", dangling=True), [(2, 1), (2, 0), (0, 1)])
+        # a symlink to a directory outside the workspace (with user data in it) left in the workspace
+        out += _split(dict(link="copy", delete=True, form="explicit", dirlink=True), [(0, 1), (2, 1)])
+        out += _split(dict(link="copy", delete=False, form="explicit", dirlink=True), [(0, 1)])
         return out
     out = []
     for link in ("copy", "hardlink", "symlink"):
@@ -43,6 +46,8 @@ def cubes(tier):
             out += _split(dict(link="copy", delete=delete, form=form, oldhash=False), ALL if form == "explicit" else [(k, 2) for k in range(3)])
     out += _split(dict(link="copy", delete=True, form="explicit", dangling=True), ALL)
     out += _split(dict(link="symlink", delete=True, form="lazy", dangling=True), [(k, 2) for k in range(3)])
+    for delete in (True, False):
+        out += _split(dict(link="copy", delete=delete, form="explicit", dirlink=True), ALL)
     return out
 
 
@@ -65,7 +70,7 @@ SPEC = Spec(
           stubs=("model local filesystem + model os.stat/os.chmod", "progress bars/logging silenced")),
     ],
     assumptions=["target data (except symbolically unavailable files) is present and intact in the cache",
-                 "no special files in the prior workspace; symlinks only as the dangling links of the `dangling` cubes (one at the root, one inside directory a)"],
+                 "no special files in the prior workspace; symlinks only as the dangling links of the `dangling` cubes (one at the root, one inside directory a) and the link to an outside directory of the `dirlink` cubes"],
     outside=["trees deeper than 3 levels or wider than the 4-node universe", "SQLite-backed indexes", "FileStorage targets / cloud filesystems",
              "observed but outside the statement: apply() raises FileNotFoundError from _chmod_files after reporting an unavailable executable entry"],
     explanation="CrossHair runs the real build_entries/compare/apply on the model workspace with prior and target tree shapes, content-equality, "
